@@ -548,3 +548,16 @@ def c04_8(ctx: Ctx) -> RuleResult:
         i.rule = "C04.8"
     r.rule, r.title, r.floor = "C04.8", "the filter's weights reach exactly the objectives and constraints mapped to it and survive later filters", 2
     return r
+
+
+@rule(P)
+def c04_9(ctx: Ctx) -> RuleResult:
+    """Shared with C03.1: failure detection reads objective column 0 only, so a NaN anywhere in a
+    realization's objectives or constraints has to be propagated to the whole row first."""
+    from .c03 import c03_1
+
+    r = c03_1(ctx)
+    for i in r.instances:
+        i.rule = "C04.9"
+    r.rule, r.title = "C04.9", "the CVaR filter sees every failed realization as failed: a NaN in any objective or constraint is propagated to the column its failure test reads"
+    return r
